@@ -9,6 +9,7 @@
 import Aqv.Lemmas.StateGood
 import Aqv.Gen.StateJournal
 import Aqv.Lemmas.StateRootSpec
+import Aqv.Lemmas.StateCache
 import Aqv.Props.C10
 namespace Aqv.Props.C09
 open Aqv Aqv.State
@@ -273,6 +274,71 @@ theorem every_field_write_is_journalled :
         "codeChange", "refundChange", "addLogChange", "addPreimageChange", "touchChange"],
       ∃ f ∈ Gen.StateJournal.funcs, k ∈ f.2.1) := by decide
 
+
+/-! ### the read caches are transparent (Aqv.Model.StateCache)
+
+  Every getter and every mutator's lookup goes through `getStateObject`, which caches the decoded trie leaf in `stateObjects`
+  (and with it, in this model, the account's code and storage).  `warm s reads` is the state after any sequence of such reads. -/
+
+/-- **read_cache_transparent**: in a `Good` state, any sequence of reads
+    (1) changes nothing but the object cache — every getter, refund, logs, preimages report the same (`view`), trie, dirty set,
+        journal and revisions are untouched — and the state stays `Good`;
+    (2) is invisible to `Copy`: the copy of the warm state IS the copy of the cold state (only dirty objects are copied; a
+        read-only cached object is not dirty), so it has the same view and, after `Finalise`/`IntermediateRoot` with or without
+        empty-account deletion, the same trie (root) and view;
+    (3) is invisible to `Finalise d'` of the state itself, for both flags: same trie (root), same view. -/
+theorem read_cache_transparent (d : Bool) (s : SDB) (hg : Good d s) (reads : List Addr) :
+    (view (warm s reads) = view s ∧ (warm s reads).trie = s.trie ∧ (warm s reads).dirty = s.dirty ∧
+      (warm s reads).journal = s.journal ∧ (warm s reads).revs = s.revs ∧ Good d (warm s reads)) ∧
+    (copy (warm s reads) = copy s ∧ ∀ d', finalise d' (copy (warm s reads)) = finalise d' (copy s)) ∧
+    (∀ d', (finalise d' (warm s reads)).trie = (finalise d' s).trie ∧ view (finalise d' (warm s reads)) = view (finalise d' s)) := by
+  obtain ⟨f1, f2, f3, f4, f5, f6, f7, f8, f9, f10, f11⟩ := warm_fields reads s
+  have hgw := good_warm (d := d) reads hg
+  have hobj := warm_objs_dirty (d := d) reads hg
+  have hcopy : copy (warm s reads) = copy s := by
+    apply SDB.ext'
+    · exact f1
+    · funext a
+      simp only [copy, f2]
+      by_cases ha : a ∈ s.dirty
+      · simp only [ha, if_true, hobj a ha]
+      · simp only [ha, if_false]
+    · exact f2
+    · rfl
+    · rfl
+    · rfl
+    · exact f5
+    · rfl
+    · exact f6
+    · exact f7
+    · exact f8
+    · simp only [copy, f9, f2]
+      congr 1
+      rw [Bool.eq_iff_iff]
+      simp only [List.any_eq_true]
+      constructor
+      · rintro ⟨a, ha, hb⟩; exact ⟨a, ha, by rwa [hobj a ha] at hb⟩
+      · rintro ⟨a, ha, hb⟩; exact ⟨a, ha, by rwa [hobj a ha]⟩
+  refine ⟨⟨?_, f1, f2, f3, f4, hgw⟩, ⟨hcopy, fun d' => by rw [hcopy]⟩, fun d' => ⟨?_, ?_⟩⟩
+  · have hacc : viewAt (warm s reads) = viewAt s := by funext a; simp only [viewAt, look_warm]
+    simp only [view, hacc, f5, f6, f8]
+  · funext a
+    rw [finalise_trie, finalise_trie, f2, f1]
+    by_cases ha : a ∈ s.dirty
+    · simp only [ha, if_true, hobj a ha]
+    · simp only [ha, if_false]
+  · have hacc : viewAt (finalise d' (warm s reads)) = viewAt (finalise d' s) := by
+      funext a
+      simp only [viewAt]
+      rw [look_finalise hgw.binv a, look_finalise hg.binv a, look_warm, f2]
+    simp only [view, hacc]
+    simp only [finalise, f6, f8]
+
+-- non-vacuity: reading the pre-existing empty accounts 1 and 3 (and the absent account 2) of `pre1` fills the cache with two
+-- clean objects; the copy then finalised WITH empty-account deletion still holds account 1 (a copy that carried the read-only
+-- objects over as dirty — the seeded change C09-8 — would delete it)
+example : ((warm pre1 [1, 2, 3, 1]).objs 1).isSome = true ∧ ((warm pre1 [1, 2, 3, 1]).objs 2).isSome = false ∧ (pre1.objs 1).isSome = false := by decide
+example : exist (finalise true (copy (warm pre1 [1, 2, 3]))) 1 = true ∧ ((finalise true (copy (warm pre1 [1, 2, 3]))).trie 1).isSome = true := by decide
 
 /-! ### several instances over one database -/
 
